@@ -27,6 +27,8 @@ enum Exp {
     /// a message that depends on what the preceding as-is fragment sequence left in the atom cache: judged only when that
     /// sequence was delivered
     MsgAfterAsIs(DistMsg),
+    /// not a frame: the clock moves on by that many seconds (nothing surfaces)
+    Wait(u64),
 }
 
 #[derive(Clone, Debug)]
@@ -89,6 +91,16 @@ fn alphabet(dist: bool) -> Vec<Item> {
         let atoms = ["peer@127.0.0.1", "", "srv", "call"];
         v.push(Item { name: "hdr_identity_slots", frames: vec![(frame(&hdr_msg(&c1, Some(&p1), &atoms, true), 4), Exp::Msg(dm.clone()))] });
         v.push(Item { name: "hdr_other_slots", frames: vec![(frame(&hdr_msg(&c1, Some(&p1), &atoms, false), 4), Exp::MsgKnownBroken(dm.clone(), "C06-atom-cache-resolution"))] });
+        // funs in the payload: their module, function and creator-node atoms travel as cache references too (as OTP sends them)
+        {
+            let pf = RefVal::Tuple(vec![
+                RefVal::ExtFun { module: "srv".into(), function: "call".into(), arity: BigI::from_u64(2) },
+                RefVal::IntFun { arity: 1, uniq: [7; 16], index: 3, num_free: 1, module: "srv".into(), old_index: BigI::from_u64(4), old_uniq: BigI::from_u64(5), pid: Box::new(peer_pid(3)), free: vec![RefVal::atom("call")] },
+                RefVal::Port { node: "peer@127.0.0.1".into(), id: 1 << 40, creation: 9 },
+                RefVal::Ref { node: "peer@127.0.0.1".into(), creation: 9, ids: vec![1, 2, 3] },
+            ]);
+            v.push(Item { name: "hdr_funs_and_identifiers_with_cached_atoms", frames: vec![(frame(&hdr_msg(&c1, Some(&pf), &atoms, true), 4), Exp::Msg(DistMsg { control: c1.clone(), payload: Some(pf.clone()) }))] });
+        }
         let c0 = RefVal::Tuple(vec![RefVal::int(2), RefVal::int(0), RefVal::int(7)]);
         v.push(Item { name: "hdr_no_atoms", frames: vec![(frame(&hdr_msg(&c0, Some(&RefVal::int(5)), &[], true), 4), Exp::Msg(DistMsg { control: c0.clone(), payload: Some(RefVal::int(5)) }))] });
         // a control-only message announces cache entries; a later frame refers to them as old entries
@@ -163,6 +175,16 @@ fn alphabet(dist: bool) -> Vec<Item> {
             {
                 let part = |i: usize| (frame(&asis[i], 4), Exp::FragPart);
                 let last = |i: usize, m: &DistMsg| (frame(&asis[i], 4), Exp::FragAsIsLast(m.clone()));
+                // half a minute between fragments, the peer ticking every 4 s: well inside the assembler's expiry (60 s by
+                // default), several times the I/O timeout
+                {
+                    let mut fr = vec![part(0)];
+                    for _ in 0..7 { fr.push((vec![], Exp::Wait(4))); fr.push((vec![0, 0, 0, 0], Exp::Nothing)); }
+                    fr.push(part(1));
+                    for _ in 0..7 { fr.push((vec![], Exp::Wait(4))); fr.push((vec![0, 0, 0, 0], Exp::Nothing)); }
+                    fr.push(last(2, &m_plain));
+                    v.push(Item { name: "kfragperm_asis_half_minute_of_ticks_between", frames: fr });
+                }
                 v.push(Item { name: "kfragperm_asis_tick_between", frames: vec![part(0), (vec![0, 0, 0, 0], Exp::Nothing), part(1), (vec![0, 0, 0, 0], Exp::Nothing), last(2, &m_plain)] });
                 let mut short_frag = vec![131u8, 69]; short_frag.extend_from_slice(&[0, 0, 0]);
                 let mut short_cont = vec![131u8, 70]; short_cont.extend_from_slice(&[0, 0, 0, 0, 0, 0, 0, 22, 0]);
@@ -271,6 +293,7 @@ fn execute(case: &Case, alpha: &[Item], ctx: &WorkerCtx) -> ExecResult {
         wire.push((frame(&write_pass_through(&fin), 4), Exp::Msg(fin.clone())));
         for (k, (bytes, _)) in wire.iter().enumerate() {
             res.steps += 1;
+            if let (_, Exp::Wait(secs)) = &wire[k] { tokio::time::advance(std::time::Duration::from_secs(*secs)).await; cw.w.settle(&mut cw.peer, &probe).await; continue; }
             match case.seg {
                 0 => { cw.peer.send(bytes); }
                 1 => { for b in bytes { cw.peer.send(&[*b]); cw.w.settle(&mut cw.peer, &probe).await; } }
@@ -299,6 +322,7 @@ fn execute(case: &Case, alpha: &[Item], ctx: &WorkerCtx) -> ExecResult {
         for (_, exp) in &wire {
             match exp {
                 Exp::Nothing | Exp::FragPart => {}
+                Exp::Wait(_) => {}
                 Exp::OneErr => { match got.get(gi) { Some(Err(_)) => gi += 1, other => { problem = Some(format!("expected one error for a malformed frame, got {:?}", other.map(|r| r.is_ok()))); break; } } }
                 Exp::Msg(m) => {
                     match got.get(gi) {
@@ -345,6 +369,51 @@ fn execute(case: &Case, alpha: &[Item], ctx: &WorkerCtx) -> ExecResult {
         res.outcome = format!("{} results, {} ok", got.len(), got.iter().filter(|r| r.is_ok()).count());
         res
     })
+}
+
+/// A slow sender on the real clock: the connection's I/O timeout is 300 ms, the three fragments of one message arrive
+/// 500 ms apart with a tick in every gap. The fragment assembler's expiry (60 s by default) is not the I/O timeout: the
+/// message is returned at its last fragment. Judged only when this layout is delivered at all (see the arrival orders).
+fn slow_fragments_exec(which: &usize, ctx: &WorkerCtx) -> ExecResult {
+    let which = *which;
+    crate::c07::set_conn_timeout(Some(std::time::Duration::from_millis(300)));
+    let out = run_rt(async move {
+        let mut res = ExecResult::default();
+        let extra = DIST_HDR | 0x800_0000;
+        let mut cw = match conn_world(ctx, flags_default() | extra, flags_default() | extra).await { Ok(x) => x, Err(e) => { res.violations.push(("could not establish the connection under a conforming peer".into(), json!({"error": e}))); return res; } };
+        cw.w.gates.set_active(&[]);
+        let alpha = alphabet(true);
+        let item = alpha.iter().find(|i| i.name == ["kfragperm_asis_321", "kfragperm_asis_213", "kfragperm_asis_123"][which % 3]).expect("item").clone();
+        let want = item.frames.iter().find_map(|(_, e)| if let Exp::FragAsIsLast(m) = e { Some(m.clone()) } else { None }).expect("expected message");
+        let log: Arc<Mutex<Vec<Result<(RefVal, Option<RefVal>), String>>>> = Arc::new(Mutex::new(vec![]));
+        let l2 = log.clone();
+        let mut conn = cw.conn;
+        tokio::spawn(async move {
+            loop {
+                let r = conn.receive_message().await;
+                let stop = matches!(&r, Err(e) if e.is_connection_closed() || matches!(e, edp_client::Error::Io(_)));
+                if matches!(&r, Err(e) if e.is_timeout()) { continue; }
+                l2.lock().unwrap().push(r.map(|(c, p)| (denote(&c.to_term()), p.as_ref().map(denote))).map_err(|e| e.to_string()));
+                if stop || l2.lock().unwrap().len() > 16 { break; }
+            }
+        });
+        let probe = { let l = log.clone(); move || l.lock().unwrap().len() as u64 };
+        for (k, (bytes, _)) in item.frames.iter().enumerate() {
+            if k > 0 {
+                for _ in 0..2 { std::thread::sleep(std::time::Duration::from_millis(250)); cw.peer.send(&[0, 0, 0, 0]); cw.w.settle(&mut cw.peer, &probe).await; }
+            }
+            cw.peer.send(bytes);
+            cw.w.settle(&mut cw.peer, &probe).await;
+        }
+        let got = log.lock().unwrap().clone();
+        let ok = got.len() == 1 && matches!(&got[0], Ok((c, p)) if exact_eq(c, &want.control) && match (p, &want.payload) { (Some(a), Some(b)) => exact_eq(a, b), _ => false });
+        if !ok { res.violations.push(("SLOW:a fragmented message whose fragments arrive half a second apart (I/O timeout 300 ms, peer ticking) is not returned at its last fragment".into(), json!({"arrival_order": item.name, "results": got.iter().map(|r| match r { Ok((c, _)) => format!("Ok({})", c.short()), Err(e) => format!("Err({})", e) }).collect::<Vec<_>>()}))); }
+        res.steps = 3;
+        res.outcome = format!("slow fragments {}", which);
+        res
+    });
+    crate::c07::set_conn_timeout(None);
+    out
 }
 
 /// 300 copies of one rejected frame, then a valid message with a 200-deep payload: each junk frame costs exactly
@@ -539,6 +608,8 @@ fn run_filtered(rep: &Report, only: Option<&str>) -> Value {
         }
         if dist && !read_half && perm_results.lock().unwrap().get("kfragperm_asis_321").copied() == Some(true) {
             let whichs = [0usize, 1, 2];
+            let st_s = for_all(rep, "fragments half a second apart on the real clock, I/O timeout 300 ms", &whichs, |c, ctx| { let mut r = slow_fragments_exec(c, ctx); for v in r.violations.iter_mut() { if let Some(rest) = v.0.strip_prefix("SLOW:") { v.0 = rest.to_string(); } } r });
+            total.executions += st_s.executions; total.transitions += st_s.transitions;
             let st_c = for_all(rep, "receive_message abandoned between fragments", &whichs, |c, ctx| { let mut r = cancelled_receive_exec(c, ctx); for v in r.violations.iter_mut() { if let Some(rest) = v.0.strip_prefix("CANCEL:") { v.0 = rest.to_string(); } } r });
             total.executions += st_c.executions; total.transitions += st_c.transitions;
         }
